@@ -306,6 +306,29 @@ let run_case (oc : out_channel) (c : case) : unit =
            | DeOk (h2, g2) -> Printf.sprintf "%s de ok %s" (order_str order) (graph_snap directed h2 g2)
            | DeMissing _ -> Printf.sprintf "%s de err" (order_str order))
       | "gdebytes" -> "exercise-only"
+      | "mac" ->
+          (* mac <form> <nitems> { key val nedges { target evalue }* }* *)
+          let pos = ref 3 in
+          let next () = let v = ios st.(!pos) in incr pos; v in
+          let nitems = ios st.(2) in
+          let items = List.init nitems (fun _ ->
+            let k = next () in let v = next () in let ne = next () in
+            let edges = List.init ne (fun _ -> let t = next () in let e = next () in (n_of_int t, n_of_int e)) in
+            ((n_of_int k, z_of_int v), edges)) in
+          (match macro_build keqb items with
+           | MOk (h2, g2) -> "ok " ^ graph_snap directed h2 g2
+           | MPanic k -> Printf.sprintf "panic %d" (int_of_n k))
+      | "hm" ->
+          let ops = if st.(1) = "1" then
+              [ONew (n_of_int 5, z_of_int 0); ONew (n_of_int 6, z_of_int 0);
+               OConnect (nat_of_int 0, nat_of_int 1, n_of_int 0); OConnect (nat_of_int 1, nat_of_int 1, n_of_int 0)]
+            else
+              [ONew (n_of_int 5, z_of_int (-2)); ONew (n_of_int 7, z_of_int 9);
+               OConnect (nat_of_int 0, nat_of_int 1, n_of_int 8); OConnect (nat_of_int 0, nat_of_int 0, n_of_int 3);
+               OConnect (nat_of_int 1, nat_of_int 0, n_of_int 8)] in
+          let (h2, _) = run_from step empty_heap ops in
+          "ok " ^ graph_snap directed h2 [((match keyof h2 O with Some k -> k | None -> N0), O);
+                                          ((match keyof h2 (S O) with Some k -> k | None -> N0), S O)]
       | "gde" ->
           let toks = Array.to_list (Array.sub st 2 (Array.length st - 2)) in
           (match deserialize keqb dec_u64 dec_i64 dec_u64 (parse_value toks) with
